@@ -33,6 +33,9 @@ def run(ck, an, tier):
     from rules import C03 as _c03
     _c03.s2(_R(ck, "C03:"), an)      # the imbalance keeps every entry of target - holdings: a NaN size (missing quote) survives to the guards that reject it, nothing filters it on the way
     _c14.s4(_R(ck, "C14:"), an)      # the book's own price selectors: liq_price(q) is acq_price(-q), NaN for a blank side - never a remembered price
+    from rules import C12 as _c12, ledger as _l
+    # a NaN imbalance weight (missing quote) is never "below the margin": the threshold test is the reviewed strict comparison on the weight as computed, so the leg reaches the Trade guards that reject it
+    _c12.run(_l._Only(_R(ck, "C12:"), {"threshold-strict", "no-other-skip", "no-skip-before-the-loop"}), an, "quick")
     _c14.s1(_R(ck, "C14:"), an)      # a quote that arrives with a missing side blanks that side of the book (the book holds the last quote as given)
 
 
@@ -159,9 +162,8 @@ def s4(ck, an):
     for c in fm.calls_named("append"):
         if isinstance(c.func, ast.Attribute) and isinstance(c.func.value, ast.Name):
             appended.add(c.func.value.id)
-    good = bool(rets) and all(isinstance(r.value, ast.Name) and r.value.id in appended for r in rets)
-    if not good and rets:
-        good = all(isinstance(r.value, (ast.List, ast.ListComp)) or (isinstance(r.value, ast.Call) and ast.unparse(r.value.func) in ("list", "sorted")) for r in rets)
+    good = bool(rets) and all((isinstance(r.value, ast.Name) and r.value.id in appended) or isinstance(r.value, (ast.List, ast.ListComp))
+                              or (isinstance(r.value, ast.Call) and ast.unparse(r.value.func) in ("list", "sorted")) for r in rets)
     ck.check(good, "IDIOM", "S4.returns-list", subj, fm.f.loc, "make_trades returns the fully accumulated list", f"make_trades returns {[ast.unparse(r.value)[:40] for r in rets if r.value is not None]}",
              construct="return trades")
     fa = an.fa("Broker.rebalance")
